@@ -1,3 +1,150 @@
-/-! # C11 — property theorems (stub: not built yet) -/
+import PymtlVerif.Proofs.Rtl
+import PymtlVerif.Props.C01
+/-!
+# C11 — combinational cycles settle on a fixed point or are reported
+
+Model: `iterate` / `runEntries` / `watchOKB` in `Model/Rtl.lean` (the SCC super-block template of
+`DynamicSchedulePass` and `Mamba2020Pass.compile_scc`: clone the watched variables, run the group, compare,
+repeat, give up after 100 sweeps). The theorems hold for every group, every watch list satisfying the
+checked condition `watchOKB`, every fuel and every start state.
+-/
 namespace PV.C11
+open PV.Rtl PV.Sched
+
+/-- the Boolean stability test of the template, as a predicate on bits -/
+theorem stable_sound (watch : List Rng) (s s' : St)
+    (h : watch.all (fun r => (List.range r.w).all (fun i => s (r.sig, r.lo + i) == s' (r.sig, r.lo + i))) = true) :
+    ∀ v, inRngs watch v → s' v = s v := by
+  intro v ⟨r, hr, hv⟩
+  have h1 := List.all_eq_true.mp h r hr
+  obtain ⟨hs, hlo, hhi⟩ := hv
+  have h2 := List.all_eq_true.mp h1 (v.2 - r.lo) (List.mem_range.mpr (by omega))
+  have e : (r.sig, r.lo + (v.2 - r.lo)) = v := by
+    cases v; simp only [Prod.mk.injEq] at *; constructor <;> omega
+  rw [e] at h2
+  exact (beq_iff_eq.mp h2).symm
+
+/-- what the watch list must cover: every bit written in the group and read in the group -/
+theorem watchOKB_sound (scc : List Blk) (watch : List Rng) (h : watchOKB scc watch = true) :
+    ∀ v, (∃ a ∈ scc, inRngs a.writes v) → (∃ b ∈ scc, inRngs b.reads v) → inRngs watch v := by
+  intro v ⟨a, ha, wr, hwr, hwv⟩ ⟨b, hb, rd, hrd, hrv⟩
+  unfold watchOKB at h
+  have h1 := List.all_eq_true.mp (List.all_eq_true.mp (List.all_eq_true.mp (List.all_eq_true.mp h a ha) wr hwr) b hb) rd hrd
+  have hov := overlap_of_common wr rd v hwv hrv
+  simp only [hov, Bool.not_true, Bool.false_or] at h1
+  obtain ⟨hs1, hlo1, hhi1⟩ := hwv
+  obtain ⟨hs2, hlo2, hhi2⟩ := hrv
+  have h2 := List.all_eq_true.mp h1 (v.2 - max wr.lo rd.lo) (List.mem_range.mpr (by omega))
+  obtain ⟨r, hr, hrr⟩ := List.any_eq_true.mp h2
+  simp only [Bool.and_eq_true, beq_iff_eq, decide_eq_true_eq] at hrr
+  exact ⟨r, hr, by unfold Rng.has; omega⟩
+
+/-- `iterate` returns only the result of a sweep over which the watched bits did not change -/
+theorem iterate_some (fuel : Nat) (watch : List Rng) (scc : List Blk) (s s' : St)
+    (h : iterate fuel watch scc s = some s') :
+    ∃ s0, s' = runBlocks scc s0 ∧ ∀ v, inRngs watch v → s' v = s0 v := by
+  induction fuel generalizing s with
+  | zero => simp [iterate] at h
+  | succ f ih =>
+    simp only [iterate] at h
+    split at h
+    · next hst =>
+      cases h
+      exact ⟨s, rfl, stable_sound watch s _ hst⟩
+    · exact ih _ h
+
+/-- **returns ⇒ fixed point**: when the super-block returns, no block of the group, run again, changes
+any signal bit -/
+theorem stable_is_fixed_point (fuel : Nat) (watch : List Rng) (scc : List Blk) (s s' : St)
+    (hwf : PV.C01.wfBlocks scc = true) (hok : watchOKB scc watch = true)
+    (h : iterate fuel watch scc s = some s') : ∀ b ∈ scc, b.run s' = s' := by
+  obtain ⟨s0, rfl, hst⟩ := iterate_some fuel watch scc s s' h
+  obtain ⟨hw, hsw⟩ := PV.C01.wf_denote scc hwf
+  intro b hb
+  rw [runBlocks_eq] at hst ⊢
+  apply Sched.stable_is_fixed_point (scc.map denote) hw hsw (inRngs watch) _ s0 hst (denote b)
+    (List.mem_map_of_mem hb)
+  intro v ⟨a, ha, hav⟩ ⟨c, hc, hcv⟩
+  obtain ⟨a', ha', rfl⟩ := List.mem_map.mp ha
+  obtain ⟨c', hc', rfl⟩ := List.mem_map.mp hc
+  exact watchOKB_sound scc watch hok v ⟨a', ha', hav⟩ ⟨c', hc', hcv⟩
+
+/-- the state after `k` sweeps of the group -/
+def sweeps (scc : List Blk) : Nat → St → St
+  | 0, s => s
+  | k+1, s => sweeps scc k (runBlocks scc s)
+
+/-- the stability test of the template between two states -/
+def stableB (watch : List Rng) (s s' : St) : Bool :=
+  watch.all (fun r => (List.range r.w).all (fun i => s (r.sig, r.lo + i) == s' (r.sig, r.lo + i)))
+
+/-- **never hangs**: `iterate` is a total function bounded by its fuel (100 in the code); `none` (the
+UpblkCyclicError case) means that none of the `fuel` sweeps was stable -/
+theorem none_means_unstable (fuel : Nat) (watch : List Rng) (scc : List Blk) (s : St)
+    (h : iterate fuel watch scc s = none) :
+    ∀ k, k < fuel → stableB watch (sweeps scc k s) (runBlocks scc (sweeps scc k s)) = false := by
+  induction fuel generalizing s with
+  | zero => intro k hk; omega
+  | succ f ih =>
+    intro k hk
+    simp only [iterate] at h
+    split at h
+    · cases h
+    · next hst =>
+      cases k with
+      | zero => simpa [stableB, sweeps] using hst
+      | succ k => exact ih (runBlocks scc s) h k (by omega)
+
+/-- a stable start state is accepted after one sweep (a convergent design costs one extra sweep) -/
+theorem fixed_point_accepted (fuel : Nat) (watch : List Rng) (scc : List Blk) (s : St)
+    (hfix : runBlocks scc s = s) : iterate (fuel + 1) watch scc s = some s := by
+  simp only [iterate, hfix]
+  have : (watch.all (fun r => (List.range r.w).all (fun i => s (r.sig, r.lo + i) == s (r.sig, r.lo + i)))) = true := by
+    simp
+  simp
+
+/-- **false loop = acyclic design**: if the group, with every assignment taken as a block of its own, has a
+legal acyclic schedule `fine` (same assignments, targets pairwise disjoint), then the value the super-block
+returns is the value of that acyclic schedule -/
+theorem false_loop_eq_acyclic (fuel : Nat) (watch : List Rng) (scc fine : List Blk) (s s' : St)
+    (hwf : PV.C01.wfBlocks scc = true) (hok : watchOKB scc watch = true)
+    (h : iterate fuel watch scc s = some s')
+    (hfwf : PV.C01.wfBlocks fine = true) (hftopo : topoB fine = true)
+    -- `fine` splits the blocks of `scc`: each fine block is fixed wherever its coarse block is
+    (hsplit : ∀ t, (∀ b ∈ scc, b.run t = t) → ∀ c ∈ fine, c.run t = t)
+    -- and drives the same bits
+    (hsame : ∀ v, (∃ c ∈ fine, inRngs c.writes v) ↔ (∃ b ∈ scc, inRngs b.writes v)) :
+    s' = runBlocks fine s := by
+  have hfix := stable_is_fixed_point fuel watch scc s s' hwf hok h
+  apply PV.C01.dataflow_unique fine hfwf hftopo s s'
+  · intro v hv
+    -- bits not driven by the group are untouched by iterate
+    have hnw : ∀ b ∈ scc, ¬ inRngs b.writes v := by
+      intro b hb hw
+      obtain ⟨c, hc, hcw⟩ := (hsame v).mpr ⟨b, hb, hw⟩
+      exact hv c hc hcw
+    clear hfix hok
+    induction fuel generalizing s with
+    | zero => simp [iterate] at h
+    | succ f ih =>
+      simp only [iterate] at h
+      have hfr : runBlocks scc s v = s v := by
+        obtain ⟨hw, _⟩ := PV.C01.wf_denote scc hwf
+        rw [runBlocks_eq]
+        apply runList_frame _ hw
+        intro b hb
+        obtain ⟨c, hc, rfl⟩ := List.mem_map.mp hb
+        exact hnw c hc
+      split at h
+      · cases h; exact hfr
+      · rw [ih _ h, hfr]
+  · exact hsplit s' hfix
+
+/-! ## non-vacuity: a false loop through disjoint slices of one signal -/
+-- A: x[0:4] @= in ; x[4:8] @= y      B: y @= x[0:4]
+def fA : Blk := ⟨0, [⟨⟨1, 0, 4⟩, .rd ⟨0, 0, 4⟩⟩, ⟨⟨1, 4, 4⟩, .rd ⟨2, 0, 4⟩⟩]⟩
+def fB : Blk := ⟨1, [⟨⟨2, 0, 4⟩, .rd ⟨1, 0, 4⟩⟩]⟩
+example : PV.C01.wfBlocks [fA, fB] = true ∧ topoB [fA, fB] = false ∧ topoB [fB, fA] = false ∧
+    watchOKB [fA, fB] [⟨1, 0, 8⟩, ⟨2, 0, 4⟩] = true := by decide
+
 end PV.C11
